@@ -10,9 +10,16 @@
                 data, raised, divs                   ranks in the joint order of
                                                      data and result values
 
+   "repart"     repartition(npartitions | divisions, force | partition_size)   (C44)
+                idx, layout, sdivs (the source: labels of the rows in order, row
+                counts of its partitions, declared divisions or <<>>), arg, obs
+   "from_pandas" from_pandas(npartitions | chunksize, sort)                    (C44)
+                idx, arg, obs
+                obs = [raised, nparts, ndivs, divs, parts, wholeok] as produced by
+                harness.frameobs.observe (rows are [rid, idx])
+
    A call that raised is logged with raised = the exception name and empty
-   results; for these operations the inputs are always legal, so raising is a
-   failed clause ("Raised").                                                   *)
+   results; raising on a legal request is a failed clause ("Raised").                                                   *)
 EXTENDS Divisions, TraceIO
 
 Bad(r) ==
@@ -20,6 +27,11 @@ Bad(r) ==
          IF r.raised # "" THEN {"Raised"} ELSE DivLocBad(r.seq, r.mode, r.k, r.divs, r.locs)
     [] r.op = "quantiles" ->
          IF r.raised # "" THEN {"Raised"} ELSE QuantileBad(r.data, r.divs)
+    [] r.op = "repart" ->
+         LET src == SrcOf(r.idx, r.layout, r.sdivs) IN
+         \* a source that breaks the precondition is a harness error, reported as such
+         IF ~(SumSeq(r.layout) = Len(r.idx) /\ Truthful(src)) THEN {"BadSource"} ELSE RepartBad(src, r.arg, r.obs)
+    [] r.op = "from_pandas" -> FromPandasBad(r.idx, r.arg, r.obs)
     [] OTHER -> {"UnknownOp"}
 
 Init == TInit
